@@ -40,6 +40,9 @@ struct Case {
     /// the module (`use` is a statement like any other: it may follow declarations and resources).
     places: Vec<Vec<u8>>,
     files: Vec<String>,
+    /// (i, j, k): modules j and k both declare `w` and module i, which imports both without a
+    /// qualifier, uses it.
+    clash: Option<(usize, usize, usize)>,
 }
 
 fn dir_of(path: &str) -> Vec<&str> {
@@ -112,7 +115,27 @@ fn build_case(n: usize, adj: &dyn Fn(usize, usize) -> bool, t: &mut Tape) -> Cas
         uses.push(us);
     }
     let places = uses.iter().map(|us| us.iter().map(|_| if t.chance(1, 3) { 1 + t.choose(2) as u8 } else { 0 }).collect()).collect();
-    Case { n, uses, places, files }
+    // One case in five (where the graph allows it): two modules imported without qualifier by the
+    // same module declare the same name.
+    let mut clash = None;
+    if t.chance(1, 5) {
+        let unq = |i: usize| -> Vec<usize> { uses[i].iter().filter(|(t, _, q)| t.is_some() && q.is_none()).map(|(t, _, _)| t.unwrap()).collect() };
+        let mut cands = Vec::new();
+        for i in 0..n {
+            let us = unq(i);
+            for &j in &us {
+                for &k in &us {
+                    if j < k && j != i && k != i && !unq(j).contains(&k) && !unq(k).contains(&j) {
+                        cands.push((i, j, k));
+                    }
+                }
+            }
+        }
+        if !cands.is_empty() {
+            clash = Some(*t.pick_ref(&cands));
+        }
+    }
+    Case { n, uses, places, files, clash }
 }
 
 fn sources_of(c: &Case) -> Sources {
@@ -148,6 +171,17 @@ fn sources_of(c: &Case) -> Sources {
         mentions.sort();
         for (j, q, e) in mentions {
             props.push(format!("'d{j}{q} {e}"));
+        }
+        if let Some((ci, cj, ck)) = c.clash {
+            if i == ci {
+                props.push("'w w".to_owned());
+            }
+            if i == cj {
+                text.push_str("let w = num ;\n");
+            }
+            if i == ck {
+                text.push_str("let w = str ;\n");
+            }
         }
         text.push_str(&format!("let v{i} = {{ {} }} ;\n", props.join(" , ")));
         text.push_str(&later[0]);
@@ -458,6 +492,9 @@ impl Property for C10 {
         if subdir {
             r.label("sub-directory");
         }
+        if case.clash.is_some() {
+            r.label("clashing-unqualified-imports");
+        }
         if !a.has_cycle && a.missing.is_empty() {
             r.label("well-formed");
         }
@@ -466,8 +503,21 @@ impl Property for C10 {
         }
         r
     }
-    fn replay(&self, _case: &Value) -> Option<Result<(), Failure>> {
-        // The oracle needs the graph the sources were built from; replay goes through the tape.
-        None
+    fn replay(&self, case: &Value) -> Option<Result<(), Failure>> {
+        // The call-sequence oracle needs the graph the sources were built from (replay goes through
+        // the tape); a stored pair of source sets that differ only in the order and spelling of
+        // their use statements is compared for the document.
+        let a: Sources = serde_json::from_value(case.get("sources")?.clone()).ok()?;
+        let b: Sources = serde_json::from_value(case.get("reordered")?.clone()).ok()?;
+        let doc = |s: &Sources| match catch(|| pipeline(s, None)) {
+            Ok(Outcome::Document { yaml, .. }) => Some(yaml),
+            _ => None,
+        };
+        let (da, db) = (doc(&a)?, doc(&b)?);
+        Some(if da == db {
+            Ok(())
+        } else {
+            Err(Failure::new("c10:depends-on-spelling-or-order", format!("the document differs after reordering the use statements:\n{da}\nvs\n{db}")))
+        })
     }
 }
